@@ -649,6 +649,11 @@ def call_builtin(I, node, f, args, kwargs, st):
             yield st, (I.alloc(st, HList([])) if name == 'list' else STuple([]))
             return
         items = I.concrete_iter(st, args[0])
+        if items is None and isinstance(args[0], Ref) and isinstance(st.heap[args[0].addr], HSplit):
+            from . import contracts_rt as C
+            for st1, parts in C.split_force(I, st.heap[args[0].addr], st):
+                yield st1, (I.alloc(st1, HList(parts)) if name == 'list' else STuple(parts))
+            return
         if items is None:
             if isinstance(args[0], Ref) and isinstance(st.heap[args[0].addr], HSeq) and name == 'list':
                 o = st.heap[args[0].addr]
